@@ -204,7 +204,33 @@ func checkC17(c *Ctx) {
 			}
 		}
 	}
-	c.Check(okOrder, "C17-R1", "encodeRune:acs-before-fallback", p.pos(enc.Pos()), "the fallback map is consulted only on the not-found edge of the ACS lookup")
+	if !okOrder && len(acsL) == 1 && len(fbL) == 1 {
+		// both tables looked up in advance: what counts is where the fallback string is used
+		uses, open := 0, 0
+		for _, r := range referrers(fbL[0].(*ssa.Lookup)) {
+			ex, isEx := r.(*ssa.Extract)
+			if !isEx || ex.Index != 0 {
+				continue
+			}
+			for _, u := range referrers(ex) {
+				if _, isDbg := u.(*ssa.DebugRef); isDbg {
+					continue
+				}
+				uses++
+				behind := false
+				for _, g := range rawGuardsAt(u.Block()) {
+					if gx, ok := g.Cond.(*ssa.Extract); ok && gx.Tuple == ssa.Value(acsL[0].(*ssa.Lookup)) && gx.Index == 1 && !g.Positive {
+						behind = true
+					}
+				}
+				if !behind {
+					open++
+				}
+			}
+		}
+		okOrder = uses > 0 && open == 0
+	}
+	c.Check(okOrder, "C17-R1", "encodeRune:acs-before-fallback", p.pos(enc.Pos()), "the fallback map is consulted (or its answer used) only on the not-found edge of the ACS lookup")
 	// '?' only when the fallback lookup failed
 	okQ := false
 	notFound := func(b *ssa.BasicBlock) bool {
